@@ -274,7 +274,7 @@ func VerifC06Versions() {
 		}
 		symx.Assert(db.Prune(2) == nil, "Prune of version 2 failed")
 		symx.Assert(db.GetEarliestVersion() == 3, "earliest version not advanced by pruning version 2")
-		if h2 != h3 {
+		if h2 != h3 && !h2.IsEmpty() { // (the empty root is trivially present at every version)
 			symx.Assert(!db.HasRoot(r2), "pruned root of version 2 still present")
 		}
 		c06CheckRoot(ctx, db, r3, c3, probe, "after pruning versions 1 and 2")
